@@ -316,6 +316,19 @@ def r4(ctx):
             eff = R.arm_effects(P, b, a, O)
             cs = sorted({c for c in eff["consts"] if c.startswith("DEFAULT_")})
             got[key] = cs
+        # an arm that delegates to another of the three table functions (`Type::String(_, charset) => charset.default_tag()`) covers
+        # the variants that function decides - its own table is checked below / above
+        for a in arms:
+            key = "/".join(v for _, v in a.path)
+            eff = R.arm_effects(P, b, a, O)
+            if any(c.split("::")[-1] == "default_tag" and "Charset" in c for c in eff["calls"]):
+                for variant in table:
+                    if variant.startswith(key + "/") and variant not in got:
+                        sub = variant[len(key) + 1:]
+                        want_const = {v: k for k, v in t["constants"].items()}.get(table[variant])
+                        # the delegate's table (t["charset"]) maps the same sub-variant to the same type name
+                        if t["charset"].get(sub) == table[variant] and want_const:
+                            got[variant] = [want_const]
         name = X.short(b.path)
         # the table must be applied to the type itself: a scrutinee that was preprocessed (e.g. `self.as_inner_type()`, which also
         # looks through SEQUENCE OF / SET OF) gives a list the tag of its elements
@@ -453,6 +466,80 @@ def r6(ctx):
         ctx.ok(rule, "choice-smallest-tag", detail)
 
 
+def _choice_tag_loop(ctx, rule, P, b, O):
+    """The same selection written as a loop over `variants().enumerate()` that keeps a running minimum: every update of the
+    running value must lie behind the test that the enumerate index is not behind the extension marker (`index > after` false,
+    `index <= after` true).  Returns False when the function has no such loop (the caller fails closed)."""
+    enums = [cs for cs in b.calls() if cs.name == "enumerate"]
+    nexts = [cs for cs in b.calls() if cs.name == "next"]
+    if not enums or not nexts:
+        return False
+    # blocks of the loop(s) driven by `next()` on the enumerate iterator
+    loop_blocks = set()
+    for nx in nexts:
+        if "enumerate(" not in X.render(O.call_args(nx)[0]):
+            continue
+        loop = set()
+        for comp in b.sccs():
+            if nx.bb in comp:
+                loop = set(comp)
+        loop_blocks |= loop
+    if not loop_blocks:
+        return False
+    # accumulator updates: assignments of Option::Some(<tag>) / a tag to a local that is also read back in a comparison
+    updates = []
+    for bb, j, st in b.all_statements():
+        rv = st.get("rv") or {}
+        if st["k"] == "assign" and not st["pl"]["p"] and rv.get("k") == "agg" and rv.get("adt", "").endswith("option::Option") \
+                and rv.get("variant") == "Some" and "Tag" in (st.get("pty") or "") and bb in loop_blocks:
+            l = st["pl"]["l"]
+            acc = len(b.defs.get(l, ())) >= 2
+            if not acc:
+                # `smallest = Some(tag)` is built in a temporary and moved into the accumulator
+                for bb2, j2, st2 in b.all_statements():
+                    if st2["k"] == "assign" and not st2["pl"]["p"] and st2["rv"]["k"] == "use" and st2["rv"]["op"].get("k") in ("copy", "move") \
+                            and not st2["rv"]["op"]["pl"]["p"] and st2["rv"]["op"]["pl"]["l"] == l and len(b.defs.get(st2["pl"]["l"], ())) >= 2:
+                        acc = True
+            if acc:
+                updates.append((bb, st))
+    if not updates:
+        return False
+    ok_all = True
+    for bb, st in updates:
+        guarded = False
+        conds = []
+        for s_bb, ex, val in R.path_conditions(b, O, bb):
+            txt = F.rd(R.positional(ex))
+            conds.append("%s is %s" % (txt[:80], val))
+            c = None
+            e = F.strip_casts(ex)
+            # `index > after` / `index <= after` on the enumerate index, directly or inside map_or / is_some_and closures
+            if "extension_after_index(" in txt or "extension_after" in txt:
+                if e[0] == "bin" and X.norm_op(e[1]) in ("Gt", "Ge", "Lt", "Le"):
+                    c = (X.norm_op(e[1]), "extension_after" in F.rd(R.positional(e[2])))
+                    gt_like = (c[0] in ("Gt", "Ge")) != c[1]          # true when the index is behind the marker
+                    if gt_like != bool(val):
+                        guarded = True
+                elif e[0] == "call" and X.last_seg(e[1] or "") in ("map_or", "is_some_and", "is_none_or"):
+                    for a in e[3][1:]:
+                        if a[0] == "agg" and a[1] == "closure":
+                            cb = P.bodies.get("%s::%s" % (b.crate, a[2]))
+                            for cm in (F.comparisons(cb, X.Origins(cb, P)) if cb is not None else ()):
+                                # closure `|after| index > after`: true = behind the marker
+                                behind_when_true = cm.nop in ("Gt", "Ge") if "upvar" in X.render(cm.lex) or "^" in (cm.lhs or "") else cm.nop in ("Lt", "Le")
+                                if behind_when_true != bool(val):
+                                    guarded = True
+        detail = {"update_at": span_loc(st["sp"]), "path_conditions": conds[:6]}
+        if guarded:
+            ctx.ok(rule, "choice-root-count", detail)
+        else:
+            ok_all = False
+            ctx.fail(rule, "choice-root-count", "the running smallest tag is updated before (or without) the test that the alternative is not "
+                                                "behind the extension marker: the first extension alternative can decide the choice's tag",
+                     span_loc(st["sp"]), detail)
+    return True
+
+
 def r7(ctx, rule="C16.R7"):
     rule_text = ("root alternatives only: the tag of an untagged CHOICE is the smallest tag among its *root* alternatives - the number "
                  "of alternatives looked at is `extension_after_index + 1` (all of them only when there is no marker), with no further "
@@ -467,6 +554,8 @@ def r7(ctx, rule="C16.R7"):
     b = bs[0]
     O = X.Origins(b, P)
     takes = [cs for cs in b.calls() if cs.name == "take"]
+    if not takes and _choice_tag_loop(ctx, rule, P, b, O):
+        return
     if not takes:
         ctx.fail(rule, "choice-root-count#anchor-lost", "the alternatives are no longer limited with take(..): extension alternatives take "
                                                         "part in the choice's tag", "%s:%d" % (b.file, b.line))
